@@ -28,6 +28,11 @@ def _f(x):
     return float(Fraction(x))
 
 
+def json_copy(c):
+    import copy as _copy
+    return _copy.deepcopy(c)
+
+
 def _arr(xs):
     return np.array([_f(v) for v in xs], dtype=float)
 
@@ -61,7 +66,78 @@ def _as_input(a, case, allow_tuple=False, which=None):
         return a.tolist()
     if ct == "tuple":
         return [tuple(row) for row in a.tolist()]      # the documented "list of (y,x) tuples"
-    return a
+    lay = (case.get("layouts") or {}).get(which) if which is not None else None
+    return _layout(a, lay)
+
+
+LAYOUTS = ("C", "F", "T", "strided", "neg", "readonly", "offset", "list")
+
+
+def _layout(a, lay):
+    """round 5/6 (R5-C): the same values in another memory layout / container.  "F": Fortran-ordered copy;
+    "T": a transposed VIEW of a C-ordered buffer (non-owning, F-contiguous); "strided": every second element of
+    a larger buffer whose other elements are junk (non-contiguous view); "neg": a view with negative strides;
+    "offset": an interior window of a larger junk-filled buffer; "readonly": flags.writeable = False;
+    "list": nested Python lists."""
+    if lay in (None, "C") or not isinstance(a, np.ndarray):
+        return a
+    if lay == "list":
+        return a.tolist()
+    if lay == "readonly":
+        b = np.array(a, copy=True)
+        b.flags.writeable = False
+        return b
+    if lay == "F":
+        return np.asfortranarray(a)
+    if lay == "T":
+        return np.ascontiguousarray(a.T).T
+    junk = 977 if a.dtype.kind in "iu" else (True if a.dtype.kind == "b" else -977.25)
+    if lay == "strided":
+        big = np.full(tuple(2 * s for s in a.shape), junk, dtype=a.dtype)
+        view = big[tuple(slice(0, None, 2) for _ in a.shape)]
+        view[...] = a
+        return view
+    if lay == "neg":
+        return np.ascontiguousarray(a[tuple(slice(None, None, -1) for _ in a.shape)])[
+            tuple(slice(None, None, -1) for _ in a.shape)]
+    if lay == "offset":
+        big = np.full(tuple(s + 3 for s in a.shape), junk, dtype=a.dtype)
+        view = big[tuple(slice(1, 1 + s) for s in a.shape)]
+        view[...] = a
+        return view
+    raise ValueError(f"unknown layout {lay}")
+
+
+# ---- round 5/6 (R5-A/E): decades.  A case may carry "scale": {"data": a, "noise": b, "kernel": c} (exponents of
+# two applied to the whole ingredient when the implementation's inputs are built) and per-column exponents
+# "fexp" on function-list objects.  Powers of two are exact, so the scaled world is an exact diagonal rescaling of
+# the base world the case spells out: B' = B·2^(c+f_j), D'_j = D_j·2^(a+c+f_j-2b), F'_ij = F_ij·2^(2c+f_i+f_j-2b),
+# s'_j = s_j·2^(a-c-f_j), (B s)' = (B s)·2^a.  `_observe` divides these units out again (exactly) and everything
+# downstream (model, oracle, comparison) works in base units: the tolerance is thereby RELATIVE TO THE SCALED
+# MAGNITUDE of every quantity, and a hidden absolute tolerance in the code shows as an O(1) error.
+def _scale_of(case):
+    s = case.get("scale") or {}
+    a, b, c = int(s.get("data", 0)), int(s.get("noise", 0)), int(s.get("kernel", 0))
+    c_eff = c if case.get("via", "apply_mask") == "direct" else 0     # `apply_mask` re-normalises the PSF
+    return a, b, c, c_eff
+
+
+def _ld(x, e):
+    """inputs: x · 2^e, exactly (refuses to round: overflow / underflow would be the harness's own fault)."""
+    x = np.asarray(x, dtype=float)
+    with np.errstate(over="ignore", under="ignore"):
+        y = np.ldexp(x, e)
+        back = np.ldexp(y, -np.asarray(e))
+    if not np.all(np.isfinite(y)) or not np.array_equal(back, x):
+        raise Skip("power-of-two rescaling not exact (outside the representable range)")
+    return y
+
+
+def _ld_out(x, e):
+    """outputs back to base units: x · 2^-e (exact for every value that matters: a result can only round here
+    when it is below 2^-1022 in base units, far inside every tolerance; nan / inf stay what they are)."""
+    with np.errstate(over="ignore", under="ignore", invalid="ignore"):
+        return np.ldexp(np.asarray(x, dtype=float), -np.asarray(e))
 
 
 # ---- compact ("recipe") forms used by the large stream: a case never carries a huge literal array ----------
@@ -162,22 +238,56 @@ def _readonly(a, case):
     return a
 
 
-def build_dataset(aa, case, mask=None):
+def _mask_input(aa, m, ps, org, case):
+    """round 5/6 (R5-C): the boolean mask handed to `Mask2D` in other layouts / containers / dtypes, or a
+    `Mask2D` built FROM a `Mask2D` (with its geometry repeated explicitly — also when that geometry is the
+    falsy origin (0.0, 0.0))."""
+    form = (case.get("layouts") or {}).get("mask")
+    if form in (None, "C"):
+        return aa.Mask2D(mask=m, pixel_scales=ps, origin=org)
+    if form == "from_mask":
+        first = aa.Mask2D(mask=np.array(m, copy=True), pixel_scales=ps, origin=org)
+        return aa.Mask2D(mask=first, pixel_scales=ps, origin=org)
+    if form == "int":
+        return aa.Mask2D(mask=m.astype(np.int64), pixel_scales=ps, origin=org)
+    if form == "scalar_scale" and ps[0] == ps[1]:
+        return aa.Mask2D(mask=m, pixel_scales=ps[0], origin=org)
+    if form == "scalar_scale":
+        form = "F"
+    return aa.Mask2D(mask=_layout(np.array(m, copy=True), form), pixel_scales=ps, origin=org)
+
+
+def build_dataset(aa, case, mask=None, sink=None):
+    """`sink` (a list) collects every array handed to the library (ownership histories scribble over them)."""
     m = _mask_np(case["mask"])
     h, w = m.shape
     ps = tuple(_f(v) for v in case.get("pixel_scales", ["1", "1"]))
     org = tuple(_f(v) for v in case.get("origin", ["0", "0"]))
     if mask is None:      # (histories hand in the Mask2D object of an earlier world: shared on purpose)
-        mask = aa.Mask2D(mask=m, pixel_scales=ps, origin=org)
+        mask = _mask_input(aa, m, ps, org, case)
+    sa, sb, sc, _ = _scale_of(case)
     k = case["kernel"]
-    kern = _readonly(_as_input(_kernel_np(k), case, which="kernel"), case)
+    Kn, dnn, nnn = _kernel_np(k), _native_vals(case["data"], "data", h, w), _native_vals(case["noise"], "noise", h, w)
+    if sa or sb or sc:
+        Kn, dnn, nnn = _ld(Kn, sc), _ld(dnn, sa), _ld(nnn, sb)
+    kern = _readonly(_as_input(Kn, case, which="kernel"), case)
     psf = aa.Kernel2D.no_mask(values=kern, pixel_scales=ps)
-    dn = _readonly(_as_input(_native_vals(case["data"], "data", h, w), case, which="data"), case)
-    nn = _readonly(_as_input(_native_vals(case["noise"], "noise", h, w), case, which="noise"), case)
+    dn = _readonly(_as_input(dnn, case, which="data"), case)
+    nn = _readonly(_as_input(nnn, case, which="noise"), case)
+    if sink is not None:
+        sink.extend([kern, dn, nn])
+    store = case.get("store")
     if case.get("via", "apply_mask") == "direct":
         # masked structures handed to the constructor: the PSF is used exactly as given
-        ds = aa.Imaging(data=aa.Array2D(values=dn, mask=mask), noise_map=aa.Array2D(values=nn, mask=mask),
-                        psf=psf, use_normalized_psf=False)
+        if store == "slim1d":      # the documented 1D (slim) input form of a masked structure
+            dn = _layout(np.asarray(dn, dtype=float)[~m], (case.get("layouts") or {}).get("data"))
+            nn = _layout(np.asarray(nn, dtype=float)[~m], (case.get("layouts") or {}).get("noise"))
+            if sink is not None:
+                sink.extend([dn, nn])
+        d_arr, n_arr = aa.Array2D(values=dn, mask=mask), aa.Array2D(values=nn, mask=mask)
+        if store == "from_array":  # a structure built from another structure
+            d_arr, n_arr = aa.Array2D(values=d_arr, mask=mask), aa.Array2D(values=n_arr.native, mask=mask)
+        ds = aa.Imaging(data=d_arr, noise_map=n_arr, psf=psf, use_normalized_psf=False)
     else:
         # the usual route (`apply_mask` re-creates the dataset)
         data = aa.Array2D.no_mask(values=dn, pixel_scales=ps, origin=org)
@@ -235,24 +345,51 @@ def _faulty_class():
     return _FAULTY["cls"]
 
 
-def build_objects(aa, mask, ds, case):
+def _psf_dense(m, K):
+    """P[d, a] = K[d - a + half] on the unmasked pixels of `m` (independent of the code under test)."""
+    ys, xs = np.nonzero(~m)
+    kh, kw = K.shape
+    I = ys[:, None] - ys[None, :] + kh // 2
+    J = xs[:, None] - xs[None, :] + kw // 2
+    ok = (I >= 0) & (I < kh) & (J >= 0) & (J < kw)
+    return np.where(ok, K[np.clip(I, 0, kh - 1), np.clip(J, 0, kw - 1)], 0.0)
+
+
+def build_objects(aa, mask, ds, case, sink=None):
     from autoarray.inversion.mock.mock_linear_obj_func_list import MockLinearObjFuncList
 
     objs = []
     n_pix = int(mask.pixels_in_mask)
+    lays = case.get("layouts") or {}
     for o in case["objs"]:
         reg = aa.reg.Constant(coefficient=_f(o.get("coeff", "1"))) if o["reg"] else None
         if o["kind"] == "func":
             mm = _func_matrix_np(o, n_pix)
+            if o.get("fexp"):
+                mm = _ld(mm, np.asarray(o["fexp"], dtype=int)[None, :])      # per-column powers of two
             # the mock hands the matrix to `convolve_matrix_jit` as is: ndarray, in the case's dtype
             fdt = case.get("dtypes", {}).get("func", case.get("dtype", "float"))
             mm_in = np.asarray(_as_input(mm, {"container": "ndarray", "dtype": "int" if fdt in ("int", "pyint") else fdt}))
             if mm_in is mm or np.shares_memory(mm_in, mm):
                 mm_in = np.array(mm_in, copy=True)       # caller-owned buffer (histories edit it in place)
+            if lays.get("func") not in (None, "C", "list"):
+                mm_in = _layout(mm_in, lays["func"])
             mm_in = _readonly(mm_in, case)
             cls = _faulty_class() if o.get("faulty") else MockLinearObjFuncList
+            kw = {}
+            if o.get("override"):
+                # round 5/6 (R5-F): the documented `operated_mapping_matrix_override` ("bypasses the mapping_matrix
+                # computation and convolution operator and is directly placed in the operated_mapping_matrix_list"):
+                # the override is P·M for the object's matrix M (dyadic values: exact), the `mapping_matrix`
+                # attribute itself is a decoy that must not be used
+                P = _psf_dense(_mask_np(case["mask"]), np.asarray(ds.psf.native, dtype=float))
+                kw["operated_mapping_matrix_override"] = _layout(P @ np.asarray(mm_in, dtype=float), lays.get("func"))
+                decoy = np.asarray(mm_in, dtype=float) * 3.0 + 1.0
+                mm_in = decoy if o["override"] == "decoy" else mm_in
+            if sink is not None:
+                sink.extend([mm_in] + list(kw.values()))
             objs.append(cls(parameters=mm.shape[1], grid=ds.grids.uniform,
-                            mapping_matrix=mm_in, regularization=reg))
+                            mapping_matrix=mm_in, regularization=reg, **kw))
             continue
         ovs, grid = source_grid(aa, mask, {**case, **({"sub": o["sub"]} if "sub" in o else {})})
         if o["kind"] == "rect":
@@ -265,6 +402,10 @@ def build_objects(aa, mask, ds, case):
                 pv = _as_input(pv, case, allow_tuple=True, which="points")   # integer-valued vertices
             elif case.get("container") in ("list", "tuple"):
                 pv = _as_input(pv, {**case, "dtype": "float"}, allow_tuple=True)
+            elif lays.get("points"):
+                pv = _layout(pv, lays["points"])
+            if sink is not None:
+                sink.append(pv)
             pts = aa.Grid2DIrregular(values=pv)
             try:
                 mg = mesh.mapper_grids_from(mask=mask, border_relocator=None,
@@ -326,12 +467,14 @@ class C04(PropertyCheck):
     exhaustive_note = {
         "quick": "structural space enumerated completely (values inside each structural case are seeded-random): "
                  "every ordered list of 1..2 objects over {rectangular, Delaunay, function list} x every kernel shape "
-                 "in {1,3,5}^2 except (1,5),(5,1) x {non-negative, signed} on a fixed two-component mask; every "
-                 "ordered list of 3 objects on (3,5)/(5,3) signed kernels",
+                 "in {1,3,5}^2 except (1,5),(5,1) x {non-negative, signed} (1x1: non-negative only) on a fixed "
+                 "two-component mask; every "
+                 "ordered list of 3 objects once, on the (3,5) or the (5,3) signed kernel (alternating)",
         "thorough": "structural space enumerated completely (values seeded-random): every ordered list of 1..3 objects "
                     "over {rectangular, Delaunay, function list} x every kernel shape in {1,3,5}^2 x {non-negative, "
                     "signed} on two fixed masks",
     }
+    rerun_sample = 110      # order-of-evaluation stream of the shared runner: cases evaluated a second time
     # loop ties (DESIGN §12): regenerated from the source on every run, tie theorems proved for all sizes
     loop_tie_modules = ["LoopsNormalEq", "LoopsNormalEq2"]
     modelled_functions = [
@@ -530,11 +673,17 @@ class C04(PropertyCheck):
         for variant in variants:
             for kshape in (KERNEL_SHAPES[:7] if tier == "quick" else KERNEL_SHAPES):
                 for signed in (False, True):
+                    if tier == "quick" and kshape == (1, 1) and signed:
+                        continue        # (a signed 1x1 kernel is a negative scalar: thorough tier only)
                     m = self._fixed_mask(kshape, variant)
                     n = sum(1 for r in m for b in r if not b)
                     ls = list(lists12)
-                    if tier == "thorough" or (kshape in ((3, 5), (5, 3)) and signed):
+                    if tier == "thorough":
                         ls = ls + lists3
+                    elif kshape in ((3, 5), (5, 3)) and signed:
+                        # quick tier: every ordered 3-object list once, alternating between the two non-square
+                        # signed kernels (round 5/6: volume moved to the new streams; the thorough tier has them all)
+                        ls = ls + lists3[(0 if kshape == (3, 5) else 1)::2]
                     for lst in ls:
                         c = self._values(rng, m, kshape, signed)
                         c.update(self._geometry(rng))
@@ -543,7 +692,7 @@ class C04(PropertyCheck):
                         c["tag"] = f"enum_{''.join(lst)}_{kshape[0]}x{kshape[1]}_{'signed' if signed else 'nonneg'}"
                         yield c
         # 2. structured random
-        nrand = 90 if tier == "quick" else 1200
+        nrand = 60 if tier == "quick" else 1200
         for _ in range(nrand):
             kshape = rng.choice(KERNEL_SHAPES[1:])
             signed = rng.random() < 0.5
@@ -610,6 +759,13 @@ class C04(PropertyCheck):
             yield {"tag": "mirrored", "kind": "mirrored", "matrix": qmat(mm)}
         # 4. histories on REAL reused objects (round-4 hardening): every type in every run, values seeded
         yield from self._histories(tier, rng)
+        # 5. round 5/6 hardening: decades / nearly-equal ingredients, layouts, options, ownership and configuration
+        #    histories, always-on mid sizes (each stream draws from its own generator seeded from `rng`, so that
+        #    the streams above are unchanged by them)
+        import random as _random
+        for k, stream in enumerate((self._decades, self._near, self._layout_cases, self._option_cases,
+                                    self._round56_histories, self._midsize)):
+            yield from stream(tier, _random.Random(rng.getrandbits(48) + k))
 
     # ------------------------------------------------------------------ history stream: generation
     def _hist_base(self, rng, kinds, *, float_only=False, unreg=False, kshapes=None):
@@ -806,6 +962,369 @@ class C04(PropertyCheck):
                           "B": {"mode": "dataset", "kernel": {**c["kernel"], "vals": self._twin(c["kernel"]["vals"])}},
                           "C": {"mode": "dataset", "noise": self._twin(c["noise"]), "data": self._twin(c["data"])}}
                 yield finish(c, "utils_twins", worlds, [obs(nm, utils=True) for nm in ("A", "B", "C", "A")], k)
+
+    # ------------------------------------------------------------------ round 5/6 streams: generation
+    # R5-A / R5-E  decades: ordinary small cases whose world, or one ingredient, is scaled by a power of two
+    @staticmethod
+    def _exps_ok(a, b, c, fs, lim=900):
+        """every quantity the code forms (inputs, 1/sigma^2, products, results, their squares) stays a normal
+        double with > 100 binades to spare"""
+        for f in (min(fs), max(fs)):
+            for g in (min(fs), max(fs)):
+                units = (a, b, 2 * b, -2 * b, c, c + f, a + c + f, a - 2 * b, a - b, c + f - b, a + c - 2 * b,
+                         a + c + f - 2 * b, 2 * c - 2 * b, 2 * c + f + g - 2 * b, 2 * (c + f - b), a - c - f,
+                         2 * c, c + f + g)
+                if any(abs(u) > lim for u in units):
+                    return False
+        return True
+
+    def _apply_scale(self, rng, c, mode, k=None, sign=None):
+        """put a base case `c` (float dtypes) into a scaled world; returns the tag suffix."""
+        sgn = lambda: rng.choice([-1, 1])
+        k = k if k is not None else sgn() * rng.randint(8, 45)
+        a = b = kc = 0
+        nfunc = [i for i, o in enumerate(c["objs"]) if o["kind"] == "func"]
+        fexp = {}
+        if mode == "world":
+            a = b = k
+        elif mode == "data":
+            a = k
+        elif mode == "noise":
+            b = k
+        elif mode == "kernel":
+            kc = k
+        elif mode == "func":
+            for i in nfunc:
+                fexp[i] = [k] * len(c["objs"][i]["matrix"][0])
+                k = sgn() * rng.randint(8, 45) if rng.random() < 0.5 else k
+        elif mode == "func_col":
+            for i in nfunc:
+                fexp[i] = [rng.choice([0, k, -k, sgn() * rng.randint(20, 40)]) for _ in c["objs"][i]["matrix"][0]]
+        elif mode == "mix":
+            a, b, kc = (sgn() * rng.randint(0, 30) for _ in range(3))
+            for i in nfunc:
+                fexp[i] = [sgn() * rng.randint(0, 30)] * len(c["objs"][i]["matrix"][0])
+        elif mode == "extreme":
+            # out to ~1e±150 for the quantities that get squared / multiplied (noise^2, K·K/noise^2, d·B/noise^2)
+            b = (sign or sgn()) * rng.randint(150, 250)
+            a = b + sgn() * rng.randint(0, 150)
+            kc = sgn() * rng.randint(40, 200)
+        if kc:
+            c["via"] = "direct"           # (`apply_mask` would normalise the kernel's scale away)
+        fs = [e for v in fexp.values() for e in v] or [0]
+        while not self._exps_ok(a, b, kc, fs + [0]):
+            a, b, kc = a // 2, b // 2, kc // 2
+            fexp = {i: [e // 2 for e in v] for i, v in fexp.items()}
+            fs = [e for v in fexp.values() for e in v] or [0]
+        c["scale"] = {"data": a, "noise": b, "kernel": kc}
+        for i, v in fexp.items():
+            if any(v):
+                c["objs"][i]["fexp"] = v
+        # units of the diagonal of F per object: 2^(2(c + f - b)); regularization coefficients follow them (so the
+        # regularized system is the base system, rescaled) in most cases
+        consistent = rng.random() < 0.7
+        for i, o in enumerate(c["objs"]):
+            f0 = (o.get("fexp") or [0])[0]
+            if o["reg"] and consistent:
+                o["coeff"] = q(Fraction(o.get("coeff", "1")) * Fraction(2) ** (kc + f0 - b))
+        noreg_f = {e for o in c["objs"] if not o["reg"]
+                   for e in (o.get("fexp") or [0] * (1 if o["kind"] != "func" else len(o["matrix"][0])))}
+        if len(noreg_f) > 1:
+            c["eps"] = "0"                # one diagonal value cannot serve parameters of different units
+        else:
+            u2 = Fraction(2) ** (2 * (kc + (next(iter(noreg_f)) if noreg_f else 0) - b))
+            c["eps"] = rng.choice([None, "0", q(Fraction(1, 1024) * u2), q(Fraction(1, 64) * u2), q(F(1, 64)),
+                                   q(Fraction(1, 1024) * u2)])
+        # float32 inputs at scaled magnitudes, where the values fit
+        if max(abs(a), abs(b), abs(kc)) <= 60 and rng.random() < 0.25:
+            which = rng.choice(["kernel", "data", "noise"])
+            vals = c["kernel"]["vals"] if which == "kernel" else c[which]
+            if all(float(np.float32(_f(v))) == _f(v) for v in vals):     # (24-bit significands only)
+                c["dtypes"][which] = "float32"
+        return f"{mode}"
+
+    def _decades(self, tier, rng):
+        modes = ["world", "data", "noise", "kernel", "func", "func_col", "mix", "extreme", "noise", "world"]
+        # (lists mixing mappers and function lists run every branch of both formalisms: they come most often)
+        lists = [("R", "F"), ("D",), ("F", "R"), ("R",), ("D", "F"), ("F", "F"), ("F", "R", "F"), ("R", "R"), ("F", "D"),
+                 ("F",), ("R", "D"), ("R", "F")]
+        n = 30 if tier == "quick" else 300
+        for i in range(n):
+            mode = modes[i % len(modes)]
+            kinds = lists[(i // len(modes) + i) % len(lists)]
+            if mode in ("func", "func_col") and "F" not in kinds:
+                kinds = kinds + ("F",)
+            if mode == "extreme":
+                kinds = [("R", "F"), ("F", "D"), ("F", "R", "F"), ("D",)][(i // len(modes)) % 4]
+            c, npx = self._hist_base(rng, kinds, float_only=True)
+            base = json_copy(c)
+            # (extreme decades alternate the sign of the noise exponent deterministically: huge weights 1/sigma^2
+            #  in one run, tiny ones in the next case)
+            self._apply_scale(rng, c, mode, sign=(-1 if (i // len(modes)) % 2 == 0 else 1) if mode == "extreme" else None)
+            c["tag"] = f"dec_{mode}"
+            yield c
+            if i % 3 == 0:
+                # the same world at another decade (same shapes, same mask, other magnitudes): the neighbour the
+                # order-of-evaluation stream needs to see a memo keyed on shapes / on np.allclose
+                c2 = json_copy(base)
+                self._apply_scale(rng, c2, mode if mode != "extreme" else "world")
+                c2["tag"] = f"dec_{mode}_twin"
+                yield c2
+            if i % 5 == 1 and any(o["kind"] != "func" for o in c["objs"]):
+                # the util functions named by the property in the scaled world
+                mp = [o for o in c["objs"] if o["kind"] != "func"][0]
+                yield {**json_copy(c), "kind": "utils", "objs": [mp], "tag": f"dec_utils_{mode}"}
+
+    # R5-A  nearly-uniform / nearly-equal / nearly-symmetric / nearly-zero ingredients (relative differences
+    #       2^-17 … 2^-26: inside np.allclose / isclose defaults, far outside the property's 1e-9), at several decades
+    def _near(self, tier, rng):
+        kinds_all = ["uniform_noise", "const_data", "sym_kernel", "delta_kernel", "equal_cols", "transpose_kernel",
+                     "uniform_noise", "zero_wings"]
+        n = 10 if tier == "quick" else 96
+        for i in range(n):
+            what = kinds_all[i % len(kinds_all)]
+            kinds = rng.choice([("R",), ("D",), ("R", "F"), ("F", "R")]) if what != "equal_cols" else \
+                rng.choice([("F",), ("F", "R"), ("D", "F")])
+            ks = {"sym_kernel": [(3, 3), (3, 5), (5, 3), (1, 3), (3, 1)], "transpose_kernel": [(3, 3), (5, 5)],
+                  "delta_kernel": [(3, 3), (3, 5), (1, 3)], "zero_wings": [(3, 3), (5, 3), (3, 5)]}.get(what)
+            c, npx = self._hist_base(rng, kinds, float_only=True, kshapes=ks)
+            k = rng.randint(17, 26)
+            tiny = lambda j: Fraction(j, 2 ** k)
+            hw = c["mask"]["h"] * c["mask"]["w"]
+            kh, kw = c["kernel"]["kh"], c["kernel"]["kw"]
+            if what == "uniform_noise":
+                s0 = rng.choice([F(1, 2), F(1), F(2), F(3, 2)])
+                c["noise"] = qlist([s0 * (1 + tiny(rng.randint(0, 3))) for _ in range(hw)])
+            elif what == "const_data":
+                d0 = rng.choice([F(1), F(-3, 2), F(5, 4)])
+                c["data"] = qlist([d0 * (1 + tiny(rng.randint(-3, 3))) for _ in range(hw)])
+            elif what in ("sym_kernel", "transpose_kernel", "delta_kernel", "zero_wings"):
+                K = [[F(rng.randint(-4, 8), 8) for _ in range(kw)] for _ in range(kh)]
+                if what == "sym_kernel":          # point symmetric up to 2^-k
+                    K = [[K[y][x] if y * kw + x <= (kh * kw) // 2 else K[kh - 1 - y][kw - 1 - x] for x in range(kw)]
+                         for y in range(kh)]
+                elif what == "transpose_kernel":  # symmetric under transposition up to 2^-k
+                    K = [[K[min(y, x)][max(y, x)] for x in range(kw)] for y in range(kh)]
+                elif what == "delta_kernel":      # the identity kernel up to 2^-k
+                    K = [[F(1) if (y, x) == (kh // 2, kw // 2) else F(0) for x in range(kw)] for y in range(kh)]
+                else:                             # O(1) core, wings 2^-k relative
+                    K = [[K[y][x] if (abs(y - kh // 2) <= 0 and abs(x - kw // 2) <= 1) else F(0) for x in range(kw)]
+                         for y in range(kh)]
+                    K[kh // 2][kw // 2] = F(1)
+                for _ in range(rng.randint(1, 3)):
+                    y, x = rng.randrange(kh), rng.randrange(kw)
+                    if what in ("sym_kernel", "transpose_kernel") and (y, x) == (kh // 2, kw // 2):
+                        continue
+                    K[y][x] += tiny(rng.choice([-3, -1, 1, 2, 3]))
+                if all(v == 0 for r in K for v in r):
+                    K[kh // 2][kw // 2] = F(1)
+                c["kernel"] = {"kh": kh, "kw": kw, "vals": qlist([v for r in K for v in r])}
+                c["via"] = "direct"
+            elif what == "equal_cols":
+                for o in c["objs"]:
+                    if o["kind"] == "func":
+                        col = [Fraction(r[0]) or F(1, 4) for r in o["matrix"]]
+                        o["matrix"] = qmat([[v, v * (1 + tiny(1 + (j % 3)))] for j, v in enumerate(col)])
+                        o["reg"] = False
+            mode = rng.choice(["none", "world", "noise", "data", "kernel"])
+            if mode != "none":
+                self._apply_scale(rng, c, mode, k=rng.choice([-1, 1]) * rng.randint(10, 40))
+            c["tag"] = f"near_{what}"
+            yield c
+
+    # R5-C  container / layout variants of every array-taking entry point
+    def _layout_cases(self, tier, rng):
+        n = 16 if tier == "quick" else 144
+        lays = [l for l in LAYOUTS if l != "list"]
+        lists = [("R", "F"), ("D",), ("F", "R"), ("R",), ("F",), ("D", "F")]
+        for i in range(n):
+            # systematic part: every main input in every layout (F, T, neg for all four inputs in every quick run)
+            target = ["kernel", "data", "noise", "func"][i % 4]
+            forced = ["F", "T", "neg", "strided", "offset", "readonly"][(i // 4) % 6]
+            kinds = lists[i % len(lists)]
+            if target == "func" and "F" not in kinds:
+                kinds = kinds + ("F",)
+            c, npx = self._hist_base(rng, kinds, float_only=True,
+                                     kshapes=[(3, 3), (3, 5), (5, 3)] if target == "kernel" else None)
+            if target == "func":      # (a layout only matters for a matrix with more than one column)
+                for o in c["objs"]:
+                    if o["kind"] == "func" and len(o["matrix"][0]) < 2:
+                        o["matrix"] = qmat([[Fraction(r[0]), F(rng.randint(-4, 6), 4)] for r in o["matrix"]])
+            c["container"] = "ndarray"
+            pick = lambda extra=(): rng.choice(lays + list(extra))
+            c["layouts"] = {"kernel": pick(), "data": pick(), "noise": pick(), "func": pick(), "points": pick(),
+                            "mask": rng.choice(["C", "F", "T", "strided", "offset", "list", "from_mask", "int",
+                                                "scalar_scale", "neg"])}
+            c["layouts"][target] = forced
+            if c.get("via") == "direct":
+                c["store"] = rng.choice([None, "slim1d", "from_array"])
+            if i % 4 == 3:
+                c["positional"] = True
+            c["tag"] = f"lay_{forced}"
+            yield c
+            if i % 4 == 0 and any(o["kind"] != "func" for o in c["objs"]):
+                mp = [o for o in c["objs"] if o["kind"] != "func"][0]
+                cu = json_copy(c)
+                cu["layouts"]["utils"] = forced
+                yield {**cu, "kind": "utils", "objs": [mp], "tag": f"lay_utils_{forced}"}
+
+    # R5-F  rarely combined options: every non-default / set-but-falsy value of the settings the constructor takes
+    #       (introspected), crossed pairwise; the Preloads slots the factory reads; the documented override of a
+    #       function list's operated matrix; no settings argument at all
+    SETTINGS_VALUES = {
+        "positive_only_uses_p_initial": [True, False], "use_border_relocator": [True, False],
+        "force_edge_pixels_to_zeros": [False], "force_edge_image_pixels_to_zeros": [True],
+        "image_pixels_source_zero": [[], [0]], "use_w_tilde_numpy": [True], "use_source_loop": [True],
+        "use_linear_operators": [True], "image_mesh_min_mesh_pixels_per_pixel": [0, 3],
+        "image_mesh_min_mesh_number": [0], "image_mesh_adapt_background_percent_threshold": [0.0],
+        "image_mesh_adapt_background_percent_check": [0.0], "tolerance": [0.0], "maxiter": [0],
+        "use_positive_only_solver": [True, None],
+    }
+    SETTINGS_OWN = ("self", "use_w_tilde", "no_regularization_add_to_curvature_diag_value")
+
+    def _settings_options(self):
+        """[(name, value)]: the constructor's parameters as they are NOW (a new boolean parameter is flipped too)."""
+        import inspect
+        aa = load_autoarray()
+        out = []
+        for name, prm in inspect.signature(aa.SettingsInversion.__init__).parameters.items():
+            if name in self.SETTINGS_OWN:
+                continue
+            if name in self.SETTINGS_VALUES:
+                out += [(name, v) for v in self.SETTINGS_VALUES[name]]
+            elif isinstance(prm.default, bool):
+                out.append((name, not prm.default))
+        return out
+
+    def _option_cases(self, tier, rng):
+        opts = self._settings_options()
+        pairs = [(x, y) for i, x in enumerate(opts) for y in opts[i + 1:] if x[0] != y[0]]
+        rng.shuffle(pairs)
+        singles = [(x,) for x in opts]
+        chosen = (singles[::3] + pairs[:8]) if tier == "quick" else (singles + pairs)
+        lists = [("R", "F"), ("D",), ("F", "R"), ("R", "R"), ("F", "D", "F"), ("R",)]
+        pre_opts = [{"use_w_tilde": False}, {"use_w_tilde": True}, {"use_w_tilde": None, "w_tilde": "dataset"},
+                    {"w_tilde": "fresh"}, {"use_w_tilde": False, "w_tilde": "dataset"}, {},
+                    {"use_w_tilde": True, "w_tilde": "fresh"}]
+        for i, combo in enumerate(chosen):
+            c, npx = self._hist_base(rng, lists[i % len(lists)])
+            extra = {nm: v for nm, v in combo}
+            c["settings_extra"] = extra
+            # the solver: the ordinary solve is what the property describes; with the positive-only solver (explicitly,
+            # or from the configuration when the option is explicitly None) only the matrices are judged
+            if extra.get("use_positive_only_solver", False) is not False:
+                c["nosolve"] = True
+            c["ctor"] = rng.choice(["Inversion", "factory", "class", "interface"])
+            if i % 3 == 0:
+                c["preloads_opt"] = pre_opts[(i // 3) % len(pre_opts)]
+            c["tag"] = "opt_settings_" + ("pair" if len(combo) == 2 else "single")
+            yield c
+        # the Preloads slots of the factory x the settings flag x falsy diagonal values
+        for i, po in enumerate(pre_opts if tier == "thorough" else pre_opts[:5]):
+            c, npx = self._hist_base(rng, lists[(i + 1) % len(lists)], unreg=(i % 2 == 0))
+            c["preloads_opt"] = po
+            c["ctor"] = ["Inversion", "factory", "interface"][i % 3]
+            c["eps"] = [None, "0", q(F(1e-3))][i % 3]
+            c["tag"] = "opt_preloads"
+            yield c
+        # operated_mapping_matrix_override on a function list (with a decoy `mapping_matrix`), alone and beside
+        # mappers / other function lists, in both formalisms
+        for i, kinds in enumerate([("F",), ("R", "F"), ("F", "D"), ("F", "F", "R")] if tier == "quick" else
+                                  [("F",), ("R", "F"), ("F", "D"), ("F", "F", "R"), ("F", "F"), ("D", "F", "F")] * 4):
+            c, npx = self._hist_base(rng, kinds)
+            fi = [j for j, o in enumerate(c["objs"]) if o["kind"] == "func"]
+            c["objs"][fi[i % len(fi)]]["override"] = "decoy" if i % 3 != 2 else "same"
+            c["ctor"] = ["Inversion", "factory", "class", "interface"][i % 4]
+            c["tag"] = "opt_override"
+            yield c
+        # no settings argument at all (the library's shared default object), before and after other cases used it
+        for i, kinds in enumerate([("R",), ("F", "D")] if tier == "quick" else [("R",), ("F", "D"), ("R", "F"), ("D",)] * 3):
+            c, npx = self._hist_base(rng, kinds, unreg=True)
+            c["default_settings"] = True
+            c["eps"] = None
+            c["ctor"] = "Inversion"
+            c["tag"] = "opt_default_settings"
+            yield c
+
+    # R5-B  ownership histories; R5-D configuration histories (both on the history machinery: every observation is
+    #       compared with the model / oracle value of a FRESH world in that state)
+    def _round56_histories(self, tier, rng):
+        reps = 1 if tier == "quick" else 8
+        obs = lambda world, **kw: {"op": "observe", "world": world, **kw}
+        WM, MW = ["w_tilde", "mapping"], ["mapping", "w_tilde"]
+
+        def finish(c, htype, worlds, steps):
+            return {**c, "kind": "history", "hist_type": htype, "worlds": worlds, "steps": steps,
+                    "preloads": None, "settings": None, "tag": f"hist_{htype}"}
+
+        for rep in range(reps):
+            # R5-B: observe -> scribble over every array handed in or returned -> rebuild the same world from fresh,
+            # equal inputs -> observe; three rounds; a second world with the same shapes interleaved
+            for k, kinds in enumerate([("R", "F"), ("D",), ("F", "R", "F"), ("R", "D")]):
+                c, npx = self._hist_base(rng, kinds, float_only=True)
+                hw = c["mask"]["h"] * c["mask"]["w"]
+                worlds = {"A": {"mode": "fresh"}}
+                names = list(self.INV_DECOYS)
+                rng.shuffle(names)
+                steps = [obs("A", order=WM if k % 2 else MW, scribble=True, decoys=names[:9] if k % 2 == 0 else None),
+                         obs("A", order=MW if k % 2 else WM, scribble=True),
+                         obs("A", order=WM, scribble=True)]
+                if k % 2 == 1:
+                    worlds["B"] = {"mode": "fresh", "data": qlist([gen.dyadic(rng, -4, 4, 2) for _ in range(hw)]),
+                                   "noise": qlist([rng.choice([F(1, 2), F(1), F(2), F(4)]) for _ in range(hw)])}
+                    steps.insert(2, obs("B", order=MW, scribble=True))
+                    steps.append(obs("B", order=WM))
+                if k == 1 or k == 3:
+                    steps.insert(1, obs("A", utils=True, scribble=True))
+                    steps.append(obs("A", utils=True))
+                yield finish(c, "ownership", worlds, steps)
+            # R5-D: the configured diagonal value flipped between calls, on reused objects (dataset, linear objects,
+            # ONE settings object that leaves the value unset) and on fresh ones; explicit values as controls
+            for k, kinds in enumerate([("F",), ("R", "F"), ("D",)]):
+                c, npx = self._hist_base(rng, kinds, unreg=True)
+                c["eps"] = None
+                cfg = lambda key, v: {"op": "config", "key": key, "value": v}
+                EPS = "no_regularization_add_to_curvature_diag_value"
+                v1, v2 = rng.choice([("1/64", "0"), ("1/4", "1/1024"), ("0", "1/16")])
+                worlds = {"A": {"mode": "base"}, "N": {"mode": "fresh"}, "X": {"mode": "dataset", "eps": "1/32"}}
+                steps = ([obs("A", order=MW)] if k != 1 else []) + [
+                    cfg(EPS, v1), obs("A", order=WM), obs("N", order=MW), obs("X", order=MW),
+                    cfg("use_positive_only_solver", True), cfg("positive_only_uses_p_initial", k % 2 == 0),
+                    cfg(EPS, v2), obs("N", order=WM), obs("A", order=MW), obs("X", order=WM),
+                    cfg("check_reconstruction", False), cfg(EPS, q(F(1e-3))), obs("A", order=WM)]
+                yield finish(c, "config", worlds, steps)
+
+    # R5-E  always-on mid / large sizes (beyond 2^16 frame pixels, beyond 2^15 sub-pixels), judged by the vectorised
+    #       statement of the property
+    def _midsize(self, tier, rng):
+        def rect_obj(shape, sub=None):
+            o = {"kind": "rect", "shape": list(shape), "reg": True, "coeff": q(rng.choice([F(1), F(1, 2)]))}
+            if sub is not None:
+                o["sub"] = sub
+            return o
+        hh = rng.choice([257, 263, 271])
+        ww = (1 << 16) // hh + rng.randint(2, 9)
+        cs = self._large_case(rng, kshape=rng.choice([(3, 3), (3, 5), (5, 3)]), n_unmasked=rng.randint(9, 14),
+                              frame_hw=(hh, ww), objs=[rect_obj((3, 4), sub=2)], dim="frame", target=hh * ww,
+                              hint=1 << 16, label="always")
+        if cs is not None:
+            cs["tag"] = "mid_frame_2^16"
+            yield cs
+        subs = self._sub_sizes((1 << 15) + rng.randint(1, 400), rng)
+        cs = self._large_case(rng, kshape=rng.choice([(3, 3), (1, 3), (3, 1)]), n_unmasked=len(subs),
+                              objs=[rect_obj((rng.randint(3, 5), rng.randint(3, 6)))], sub=subs, dim="sub_pixels",
+                              target=sum(v * v for v in subs), hint=1 << 15, label="always")
+        if cs is not None:
+            cs["tag"] = "mid_sub_pixels_2^15"
+            yield cs
+        if tier == "thorough":
+            for dim, kw in (("kernel", dict(kshape=(33, 31), n_unmasked=7, objs=[rect_obj((3, 3), sub=2)])),
+                            ("unmasked", dict(kshape=(3, 3), n_unmasked=601, objs=[rect_obj((4, 5))])),
+                            ("mesh_rect", dict(kshape=(3, 3), n_unmasked=16, objs=[rect_obj((33, 31), sub=2)]))):
+                cs = self._large_case(rng, dim=dim, target=0, hint=0, label="always", **kw)
+                if cs is not None:
+                    cs["tag"] = f"mid_{dim}"
+                    yield cs
 
     # ------------------------------------------------------------------ large stream: generation
     # what is feasible in pure Python (numba absent) within a few seconds per case
@@ -1030,6 +1549,18 @@ class C04(PropertyCheck):
 
     # ------------------------------------------------------------------ implementation
     def run_impl(self, case):
+        try:
+            return self._run_impl(case)
+        except Skip:
+            raise
+        except Exception as e:
+            # Qhull rejecting a degenerate (collinear / duplicate) vertex set can surface lazily, at the first read of
+            # a mapper table (e.g. in the util-level observation): no mesh exists, outside the property
+            if _degenerate(e):
+                raise Skip("degenerate Delaunay point set")
+            raise
+
+    def _run_impl(self, case):
         aa = load_autoarray()
         if case.get("kind") == "mirrored":
             from autoarray.inversion.inversion import inversion_util
@@ -1066,48 +1597,120 @@ class C04(PropertyCheck):
                      "params", "neighbors", "edge_pixel_list", "pix_sizes_for_sub_slim_index"]
     DATASET_DECOYS = ["w_tilde", "convolver", "signal_to_noise_map", "signal_to_noise_max", "grids"]
 
+    @staticmethod
+    def _param_exps(case):
+        """per-parameter exponent of two of the columns of the mapping matrices (function lists with "fexp")."""
+        fe = []
+        for spec in case["objs"]:
+            if spec["kind"] == "func":
+                p = len(spec["matrix"][0]) if "matrix" in spec else int(spec["params"])
+                fe += [int(v) for v in (spec.get("fexp") or [0] * p)]
+            else:
+                fe += [None]          # a mapper: as many zeros as it has pixels (known after it is built)
+        return fe
+
     def _observe(self, aa, case, ds, objs, *, base_ds=None, order=("mapping", "w_tilde"), light=False,
-                 decoys=(), preloads=None, settings_for=None, fault=None):
+                 decoys=(), preloads=None, settings_for=None, fault=None, sink=None):
         """one observation of a dataset + object list: `aa.Inversion` with use_w_tilde off and on.
         `ds` is what is handed to the inversion (an `Imaging` or a `DatasetInterface`), `base_ds` the `Imaging`
         whose PSF it uses.  The keyword options are the history axes (order of the formalisms, decoy reads,
-        shared Preloads / settings objects, a fault injected into the first read of each inversion)."""
+        shared Preloads / settings objects, a fault injected into the first read of each inversion, `sink`: a list
+        collecting every array the API returned, for the ownership histories)."""
         base_ds = base_ds if base_ds is not None else ds
         tables = []
+        fe = []       # per-parameter exponent of two (decades stream)
         for o, spec in zip(objs, case["objs"]):
             if spec["kind"] == "func":
                 mm = spec["matrix"] if "matrix" in spec else qmat(_func_matrix_np(spec, int(base_ds.mask.pixels_in_mask)))
                 tables.append({"kind": "func", "params": len(mm[0]), "matrix": mm, "has_reg": bool(spec["reg"])})
+                fe += [int(v) for v in (spec.get("fexp") or [0] * len(mm[0]))]
             else:
                 t = mapper_tables(o)
                 t["has_reg"] = bool(spec["reg"])
                 tables.append(t)
+                fe += [0] * t["pixels"]
+        fe = np.asarray(fe, dtype=int)
+        sa, sb, _, sc = _scale_of(case)          # sc: the exponent of the PSF the dataset really uses
+        scaled = bool(sa or sb or sc or fe.any())
+        mixed = scaled and len(set(fe.tolist())) > 1
         if case["eps"] is None:
             from autoconf import conf
-            eps_setting = None       # "not set": the code falls back to the (pinned) config value
-            eps = float(conf.instance["general"]["inversion"]["no_regularization_add_to_curvature_diag_value"])
+            eps_setting = None       # "not set": the code falls back to the configuration value in force
+            eps = _f(case["_cfg_eps"]) if case.get("_cfg_eps") is not None else \
+                float(conf.instance["general"]["inversion"]["no_regularization_add_to_curvature_diag_value"])
         else:
             eps_setting = eps = _f(case["eps"])     # includes the set-but-falsy 0.0 and the explicit default
+        eps_q = q(eps)
+        if scaled:
+            noreg_e = {int(fe[j]) for j in self._noreg_index(tables)}
+            if len(noreg_e) > 1 and eps != 0.0:
+                raise Skip("diagonal term on parameters of different units (generator should not produce this)")
+            e_eps = 2 * sc + 2 * (noreg_e.pop() if noreg_e else 0) - 2 * sb
+            eps_q = q(Fraction(eps) / (Fraction(2) ** e_eps))
         kern = np.asarray(base_ds.psf.native)
         if not np.all(np.isfinite(kern)):
             raise Skip("PSF normalisation of a zero-sum kernel")
-        obs = {"_tables": tables, "_eps": q(eps),
+        if sink is not None:
+            sink.append(base_ds.psf.native)
+        if scaled:
+            kern = _ld_out(kern, sc)
+        obs = {"_tables": tables, "_eps": eps_q,
                "_kernel": {"kh": int(kern.shape[0]), "kw": int(kern.shape[1]), "vals": qlist(kern.ravel())}}
+
+        def keep(*arrs):
+            if sink is not None:
+                sink.extend(arrs)
+
         def matrices(inv):
-            return {"operated_mapping_matrix": qmat(np.asarray(inv.operated_mapping_matrix)),
-                    "data_vector": qlist(np.asarray(inv.data_vector)),
-                    "curvature_matrix": qmat(np.array(inv.curvature_matrix, copy=True))}
+            B, D, Fm = inv.operated_mapping_matrix, inv.data_vector, inv.curvature_matrix
+            keep(B, D, Fm)
+            B, D, Fm = np.asarray(B), np.asarray(D), np.array(Fm, copy=True)
+            if scaled and B.ndim == 2 and B.shape[1] == fe.size and D.shape == (fe.size,) \
+                    and Fm.shape == (fe.size, fe.size):
+                B = _ld_out(B, (sc + fe)[None, :])
+                D = _ld_out(D, sa + sc + fe - 2 * sb)
+                Fm = _ld_out(Fm, 2 * sc + fe[:, None] + fe[None, :] - 2 * sb)
+            return {"operated_mapping_matrix": qmat(B), "data_vector": qlist(D), "curvature_matrix": qmat(Fm)}
+
+        ns = {"v": bool(case.get("nosolve")) or mixed}
 
         def solve(inv):
+            nosolve = ns["v"]
             try:
-                rec = np.array(inv.reconstruction, copy=True)
-                return {"reconstruction": qlist(rec),
-                        "mapped_reconstructed_data": qlist(np.asarray(inv.mapped_reconstructed_data))}
+                rec0 = inv.reconstruction
+                rec = np.array(rec0, copy=True)
+                mrd0 = inv.mapped_reconstructed_data
+                keep(rec0, mrd0)
+                if nosolve:
+                    # parameters in different units (numpy's elimination order is then not the base world's) or a
+                    # solver this property does not describe: the solve runs, its values are not judged
+                    return {}
+                mrd = np.asarray(mrd0)
+                if scaled and rec.shape == (fe.size,):
+                    rec, mrd = _ld_out(rec, sa - sc - fe), _ld_out(mrd, sa)
+                return {"reconstruction": qlist(rec), "mapped_reconstructed_data": qlist(mrd)}
             except Exception as e:
-                return {"reconstruction": _exc_kind(e)}
+                return {} if nosolve else {"reconstruction": _exc_kind(e)}
 
         ctor = case.get("ctor", "Inversion")
+        popt = case.get("preloads_opt")
+        if popt is not None and preloads is None:
+            # round 5/6 (R5-F): the two Preloads slots the factory reads (formalism selection); every other slot is C15's
+            pk = {}
+            if "use_w_tilde" in popt:
+                pk["use_w_tilde"] = popt["use_w_tilde"]
+            if popt.get("w_tilde") == "dataset":
+                pk["w_tilde"] = ds.w_tilde
+            elif popt.get("w_tilde") == "fresh":      # an equal WTildeImaging built by the caller from the util function
+                from autoarray.inversion.inversion.imaging import inversion_imaging_util as iu
+                pre, idxs, lens = iu.w_tilde_curvature_preload_imaging_from(
+                    noise_map_native=np.array(base_ds.noise_map.native), kernel_native=np.array(base_ds.psf.native),
+                    native_index_for_slim_index=base_ds.mask.derive_indexes.native_for_slim)
+                pk["w_tilde"] = aa.WTildeImaging(curvature_preload=pre, indexes=idxs.astype("int"),
+                                                 lengths=lens.astype("int"), noise_map_value=base_ds.noise_map[0])
+            preloads = aa.Preloads(**pk)
         kw = {} if preloads is None else {"preloads": preloads}
+        extra = dict(case.get("settings_extra") or {})
 
         def make(flag, settings):
             """the same functionality through the public entry points named by the property"""
@@ -1125,12 +1728,22 @@ class C04(PropertyCheck):
                     return InversionImagingWTilde(dataset=ds, w_tilde=ds.w_tilde, linear_obj_list=objs,
                                                   settings=settings, **kw)
                 return InversionImagingMapping(dataset=ds, linear_obj_list=objs, settings=settings, **kw)
-            return aa.Inversion(dataset=ds, linear_obj_list=objs, settings=settings, **kw)
+            lst = tuple(objs) if case.get("objs_container") == "tuple" else objs
+            if flag and case.get("default_settings"):
+                # round 5/6 (R5-F): no settings argument at all — the library's own default `SettingsInversion()`
+                # (one object shared by every such call): use_w_tilde=True, diagonal value from the configuration;
+                # its solver is the configured positive-only one, which this property does not describe
+                return aa.Inversion(dataset=ds, linear_obj_list=lst, **kw)
+            if case.get("positional"):
+                return aa.Inversion(ds, lst, settings, **kw)
+            return aa.Inversion(dataset=ds, linear_obj_list=lst, settings=settings, **kw)
 
         def read_decoys(inv):
             for name in decoys:
                 try:
-                    getattr(inv, name)
+                    v = getattr(inv, name)
+                    if sink is not None:
+                        keep(*(v.values() if isinstance(v, dict) else v if isinstance(v, (list, tuple)) else [v]))
                 except Exception:
                     pass
 
@@ -1139,12 +1752,14 @@ class C04(PropertyCheck):
             if settings_for is not None:
                 settings = settings_for(flag, eps_setting)       # one settings object shared by a whole history
             else:
-                settings = aa.SettingsInversion(use_w_tilde=flag, use_positive_only_solver=False,
-                                                no_regularization_add_to_curvature_diag_value=eps_setting)
+                skw = {"use_positive_only_solver": False, **extra}
+                settings = aa.SettingsInversion(use_w_tilde=flag,
+                                                no_regularization_add_to_curvature_diag_value=eps_setting, **skw)
             # Two access histories per formalism (the quantities are cached properties and the solve adds
             # the regularization matrix to the curvature matrix, in place on some paths):
             #   first instance : matrices, solve, matrices AGAIN ("after")
             #   second instance: solve FIRST, then matrices ("solve_first")
+            ns["v"] = bool(case.get("nosolve")) or mixed or bool(flag and case.get("default_settings"))
             try:
                 inv = make(flag, settings)
                 o = {"formalism": {"InversionImagingMapping": "mapping",
@@ -1170,7 +1785,12 @@ class C04(PropertyCheck):
                 obs[key] = {"err": _exc_kind(e), "msg": str(e)[:200]}
                 continue
             if "_H" not in obs:
-                obs["_H"] = qmat(np.asarray(inv.regularization_matrix))
+                H0 = inv.regularization_matrix
+                keep(H0)
+                H = np.asarray(H0)
+                if scaled and H.shape == (fe.size, fe.size):
+                    H = _ld_out(H, 2 * sc + fe[:, None] + fe[None, :] - 2 * sb)
+                obs["_H"] = qmat(H)
             o.update(solve(inv))
             if not light:
                 o["after"] = matrices(inv)
@@ -1180,6 +1800,27 @@ class C04(PropertyCheck):
                 o["solve_first"] = sf
             obs[key] = o
         return obs
+
+    @staticmethod
+    def _noreg_index(tables):
+        out, off = [], 0
+        for t in tables:
+            p = t["pixels"] if t["kind"] == "mapper" else t["params"]
+            if not t["has_reg"]:
+                out += list(range(off, off + p))
+            off += p
+        return out
+
+    @staticmethod
+    def _expected_formalism(case, key, all_funcs):
+        """the factory's documented choice (`inversion_imaging_from`): function lists only -> mapping; the settings
+        flag off -> mapping; a `Preloads.use_w_tilde` that is not None decides; else the settings flag."""
+        if key == "mapping" or all_funcs:
+            return "mapping"
+        popt = case.get("preloads_opt") or {}
+        if popt.get("use_w_tilde") is not None and case.get("ctor", "Inversion") in ("Inversion", "factory", "interface"):
+            return "w_tilde" if popt["use_w_tilde"] else "mapping"
+        return "w_tilde"
 
     # ------------------------------------------------------------------ large stream (constant-directed)
     @staticmethod
@@ -1224,6 +1865,13 @@ class C04(PropertyCheck):
         if case.get("via", "apply_mask") == "direct" and not np.array_equal(kern, _kernel_np(case["kernel"])):
             return {"large": True, "verdict": [False, "dataset PSF differs from the PSF handed to "
                                                       "Imaging(use_normalized_psf=False)"]}
+        if case.get("via", "apply_mask") != "direct":
+            Kc = _kernel_np(case["kernel"])
+            tot = float(Kc.sum())
+            if not (kern.shape == Kc.shape and (np.array_equal(kern, Kc) or (tot != 0.0 and np.allclose(
+                    kern, Kc / tot, rtol=1e-12, atol=1e-14 * float(np.max(np.abs(Kc / tot))))))):
+                return {"large": True, "verdict": [False, "dataset PSF after apply_mask is neither the PSF handed to "
+                                                          "Imaging nor its normalisation K / sum(K)"]}
         h, w = m.shape
         data = _native_vals(case["data"], "data", h, w)[~m]
         noise = _native_vals(case["noise"], "noise", h, w)[~m]
@@ -1351,7 +1999,7 @@ class C04(PropertyCheck):
                 verdict = [False, d]
         return {"large": True, "verdict": verdict or [True, ""], "digest": digest}
 
-    def _run_utils(self, aa, mask, ds, mapper, case):
+    def _run_utils(self, aa, mask, ds, mapper, case, sink=None):
         """the util functions the property names, observed in order-insensitive dense form."""
         from autoarray.inversion.inversion.imaging import inversion_imaging_util as iu
 
@@ -1361,12 +2009,22 @@ class C04(PropertyCheck):
         nfs = mask.derive_indexes.native_for_slim
         n = int(mask.pixels_in_mask)
         img_n, noise_n = np.array(ds.data.native), np.array(ds.noise_map.native)
+        ulay = (case.get("layouts") or {}).get("utils")
+        if ulay:      # round 5/6 (R5-C): the util functions named by the property on other memory layouts
+            img_n, noise_n, kern = _layout(img_n, ulay), _layout(noise_n, ulay), _layout(np.array(kern), ulay)
+            nfs = _layout(np.array(nfs), ulay)
+        sa, sb, _, sc = _scale_of(case)
         wtd = iu.w_tilde_data_imaging_from(image_native=img_n, noise_map_native=noise_n,
                                            kernel_native=kern, native_index_for_slim_index=nfs)
         wfull = iu.w_tilde_curvature_imaging_from(noise_map_native=noise_n, kernel_native=kern,
                                                   native_index_for_slim_index=nfs)
         pre, idxs, lens = iu.w_tilde_curvature_preload_imaging_from(
             noise_map_native=noise_n, kernel_native=kern, native_index_for_slim_index=nfs)
+        if sink is not None:
+            sink.extend([img_n, noise_n, wtd, wfull, pre, idxs, lens])
+        wtd_raw = wtd
+        if sa or sb or sc:    # decades: back to base units (exact powers of two)
+            wtd, wfull, pre = _ld_out(wtd, sa + sc - 2 * sb), _ld_out(wfull, 2 * sc - 2 * sb), _ld_out(pre, 2 * sc - 2 * sb)
         upper = np.zeros((n, n))      # the matrix the (preload, indexes, lengths) triple encodes
         k = 0
         for a in range(n):
@@ -1381,12 +2039,19 @@ class C04(PropertyCheck):
                 enc[d, int(um.data_to_pix_unique[d, j])] += um.data_weights[d, j]
         wt = ds.w_tilde
         dv = iu.data_vector_via_w_tilde_data_imaging_from(
-            w_tilde_data=wtd, data_to_pix_unique=um.data_to_pix_unique.astype("int"),
+            w_tilde_data=wtd_raw, data_to_pix_unique=um.data_to_pix_unique.astype("int"),
             data_weights=um.data_weights, pix_lengths=um.pix_lengths.astype("int"), pix_pixels=pix)
         cur = iu.curvature_matrix_via_w_tilde_curvature_preload_imaging_from(
             curvature_preload=wt.curvature_preload, curvature_indexes=wt.indexes, curvature_lengths=wt.lengths,
             data_to_pix_unique=um.data_to_pix_unique.astype("int"), data_weights=um.data_weights,
             pix_lengths=um.pix_lengths.astype("int"), pix_pixels=pix)
+        wt_pre = np.asarray(wt.curvature_preload)
+        if sink is not None:
+            sink.extend([dv, cur, wt.curvature_preload, wt.indexes, wt.lengths, um.data_to_pix_unique,
+                         um.data_weights, um.pix_lengths])
+        if sa or sb or sc:
+            dv, cur, wt_pre = _ld_out(dv, sa + sc - 2 * sb), _ld_out(cur, 2 * sc - 2 * sb), _ld_out(wt_pre, 2 * sc - 2 * sb)
+            kern = _ld_out(np.asarray(kern), sc)
         t = mapper_tables(mapper)
         t["has_reg"] = True
         # the tables exactly as the implementation stores them (padded arrays + length columns)
@@ -1396,7 +2061,7 @@ class C04(PropertyCheck):
             "pix_lengths": [int(v) for v in np.asarray(um.pix_lengths)],
         }
         preload_stored = {
-            "curvature_preload": qlist(np.asarray(wt.curvature_preload)),
+            "curvature_preload": qlist(wt_pre),
             "curvature_indexes": [int(v) for v in np.asarray(wt.indexes)],
             "curvature_lengths": [int(v) for v in np.asarray(wt.lengths)],
         }
@@ -1463,7 +2128,14 @@ class C04(PropertyCheck):
                 plan[("build", name)] = effective(name)
             return state[name]
 
+        cfg_eps = None        # None = the pinned configuration value (read at observe time)
         for i, st in enumerate(case["steps"]):
+            if st["op"] == "config":
+                # round 5/6 (R5-D): the configuration value `general.inversion.<key>` is changed between calls;
+                # a settings object that leaves the value unset follows the value IN FORCE WHEN IT IS ASKED
+                if st["key"] == "no_regularization_add_to_curvature_diag_value":
+                    cfg_eps = st["value"]
+                continue
             if st["op"] == "set_data":
                 ws = world_state(st["world"])
                 for k, v in st["edits"]:
@@ -1475,6 +2147,7 @@ class C04(PropertyCheck):
                 world_state(st["world"])
                 wc = effective(st["world"])
                 wc["_objs_full"] = wc["objs"]
+                wc["_cfg_eps"] = cfg_eps
                 if st.get("utils"):
                     wc["kind"] = "utils"
                     wc["objs"] = [[o for o in wc["objs"] if o["kind"] != "func"][0]]
@@ -1535,8 +2208,83 @@ class C04(PropertyCheck):
                     if _degenerate(e):
                         raise Skip("degenerate Delaunay point set")
 
+        from autoconf import conf
+        cfg_inv = conf.instance["general"]["inversion"]
+        cfg_saved = {}
+
+        def scribble(arrays):
+            """round 5/6 (R5-B): the caller edits, in place, every array it handed in or got back (its own
+            property: nothing in the library may still depend on them once a FRESH world is built)."""
+            for x in arrays:
+                a = x if isinstance(x, np.ndarray) else getattr(x, "_array", None)
+                if not isinstance(a, np.ndarray) or not a.flags.writeable or a.size == 0:
+                    continue
+                try:
+                    if a.dtype.kind == "f":
+                        a[...] = np.nan
+                    elif a.dtype.kind in "iu":
+                        a += 1
+                    elif a.dtype.kind == "b":
+                        np.logical_not(a, out=a)
+                except (ValueError, TypeError):
+                    pass
+
         steps_out = []
+        try:
+            self._run_history_steps(aa, case, plan, built, shared, preloads, pkw, settings_for, ensure, decoy,
+                                    scribble, cfg_inv, cfg_saved, steps_out)
+        finally:
+            for k, v in cfg_saved.items():      # the configuration is restored, also on exceptions
+                cfg_inv[k] = v
+        return {"steps": steps_out}
+
+    def _run_history_steps(self, aa, case, plan, built, shared, preloads, pkw, settings_for, ensure, decoy,
+                           scribble, cfg_inv, cfg_saved, steps_out):
         for i, st in enumerate(case["steps"]):
+            if st["op"] == "config":
+                if st["key"] not in cfg_saved:
+                    cfg_saved[st["key"]] = cfg_inv[st["key"]]
+                cfg_inv[st["key"]] = _f(st["value"]) if isinstance(st["value"], str) else st["value"]
+                steps_out.append({"op": "config"})
+                continue
+            fresh = "world" in st and case["worlds"][st["world"]].get("mode") == "fresh"
+            if fresh:
+                # a world rebuilt from fresh, equal inputs for THIS observation only: mask, dataset, linear objects,
+                # settings and inversions are all new objects
+                sink = [] if st.get("scribble") else None
+                wc = plan[i]
+                mask_f, ds_f = build_dataset(aa, wc, sink=sink)
+                full = {**wc, "objs": wc["_objs_full"]}
+                objs_f = build_objects(aa, mask_f, ds_f, full, sink=sink)
+                if st.get("utils"):
+                    mp = [o for o, sp in zip(objs_f, wc["_objs_full"]) if sp["kind"] != "func"][0]
+                    so = self._run_utils(aa, mask_f, ds_f, mp, wc, sink=sink)
+                else:
+                    so = self._observe(aa, wc, ds_f, objs_f, order=tuple(st.get("order", ("mapping", "w_tilde"))),
+                                       light=True, decoys=tuple(st.get("decoys") or ()), sink=sink)
+                if sink is not None:
+                    sink.extend([ds_f.data, ds_f.noise_map, ds_f.psf, mask_f])
+                    try:
+                        sink.extend([ds_f.w_tilde.curvature_preload, ds_f.w_tilde.indexes, ds_f.w_tilde.lengths])
+                    except Exception:
+                        pass
+                    for o, sp in zip(objs_f, wc["_objs_full"]):
+                        if sp["kind"] != "func":
+                            for nm in ("pix_indexes_for_sub_slim_index", "pix_weights_for_sub_slim_index",
+                                       "pix_sizes_for_sub_slim_index", "mapping_matrix", "slim_index_for_sub_slim_index"):
+                                try:
+                                    sink.append(getattr(o, nm))
+                                except Exception:
+                                    pass
+                            try:
+                                um = o.unique_mappings
+                                sink.extend([um.data_to_pix_unique, um.data_weights, um.pix_lengths])
+                            except Exception:
+                                pass
+                    scribble(sink)
+                so["_world"] = st["world"]
+                steps_out.append(so)
+                continue
             if "world" in st:
                 ensure(st["world"])
             if st["op"] == "set_data":
@@ -1592,7 +2340,6 @@ class C04(PropertyCheck):
                                settings_for=settings_for, fault=fault)
             so["_world"] = st["world"]
             steps_out.append(so)
-        return {"steps": steps_out}
 
     def _observe_steps(self, case):
         return [i for i, st in enumerate(case["steps"]) if st["op"] == "observe"]
@@ -1668,9 +2415,20 @@ class C04(PropertyCheck):
                      "pix_pixels": impl_obs["_tables"][0]["pixels"]}]
         base = {"op": "c04.inversion", "mask": case["mask"], "kernel": impl_obs["_kernel"], "data": data,
                 "noise": noise, "objs": impl_obs["_tables"], "eps": impl_obs["_eps"]}
-        if "_H" in impl_obs:
-            base["reg_matrix"] = impl_obs["_H"]
-        return [{**base, "use_w_tilde": False}, {**base, "use_w_tilde": True}]
+        all_funcs = all(t["kind"] == "func" for t in impl_obs["_tables"])
+        reqs = []
+        for key in ("mapping", "w_tilde"):
+            r = {**base, "use_w_tilde": self._expected_formalism(case, key, all_funcs) == "w_tilde"}
+            # the exact rational solve is the expensive part of the model and its result is compared only when the
+            # system is well conditioned and the implementation produced a solution (see `_compare_one`): it is
+            # requested exactly then
+            o = impl_obs.get(key) or {}
+            has_rec = any(isinstance(x.get("reconstruction"), list)
+                          for x in (o, o.get("after") or {}, o.get("solve_first") or {}) if isinstance(x, dict))
+            if "_H" in impl_obs and has_rec and self._cond(impl_obs, key) < 1e6:
+                r["reg_matrix"] = impl_obs["_H"]
+            reqs.append(r)
+        return reqs
 
     def _model_obs_one(self, case, responses):
         if case.get("kind") == "mirrored":
@@ -1804,6 +2562,17 @@ class C04(PropertyCheck):
         if case.get("via", "apply_mask") == "direct":
             if k != case["kernel"]:
                 return False, "dataset PSF differs from the PSF handed to Imaging(use_normalized_psf=False)"
+        elif "vals" in case["kernel"]:
+            # `apply_mask` re-creates the dataset with the default `use_normalized_psf=True` (design note §5): the
+            # dataset's PSF is the given kernel divided by its sum (kernel values are dyadic: the sum is exact), or
+            # the given kernel itself — anything else (transposed, flipped, re-ordered …) is not the PSF of this case
+            Kc = _arr(case["kernel"]["vals"]).reshape(case["kernel"]["kh"], case["kernel"]["kw"])
+            tot = float(Kc.sum())
+            same = K.shape == Kc.shape and (np.array_equal(K, Kc) or (
+                tot != 0.0 and np.allclose(K, Kc / tot, rtol=1e-12, atol=1e-14 * float(np.max(np.abs(Kc / tot))))))
+            if not same:
+                return False, ("dataset PSF after apply_mask is neither the PSF handed to Imaging nor its "
+                               "normalisation K / sum(K)")
         # PSF matrix restricted to unmasked pixels: P[d, a] = K[d - a + half]
         P = np.zeros((n, n))
         for di, (dy, dx) in enumerate(idx):
@@ -1835,11 +2604,11 @@ class C04(PropertyCheck):
             off += M.shape[1]
             Ms.append(M)
 
-        def close(a, b, what):
+        def close(a, b, what, floor=0.0):
             a, b = np.asarray(a, float), np.asarray(b, float)
             if a.shape != b.shape:
                 return f"{what}: shape {a.shape} != {b.shape}"
-            tol = 1e-9 * max(1.0, float(np.max(np.abs(b))) if b.size else 1.0)
+            tol = max(floor, 1e-9 * max(1.0, float(np.max(np.abs(b))) if b.size else 1.0))
             if a.size and float(np.max(np.abs(a - b))) > tol:
                 i = np.unravel_index(np.argmax(np.abs(a - b)), a.shape)
                 return f"{what}: max |Δ| = {float(np.max(np.abs(a - b))):.3e} at {tuple(int(v) for v in i)}"
@@ -1878,9 +2647,10 @@ class C04(PropertyCheck):
             o = obs.get(key)
             if o is None or "err" in o:
                 return False, f"{key}: implementation raised {o}"
-            want = "mapping" if (key == "mapping" or all_funcs) else "w_tilde"
+            want = self._expected_formalism(case, key, all_funcs)
             if o["formalism"] != want:
-                return False, f"factory chose {o['formalism']} for use_w_tilde={key == 'w_tilde'}"
+                return False, (f"factory chose {o['formalism']} for use_w_tilde={key == 'w_tilde'}"
+                               + (f", preloads {case['preloads_opt']}" if case.get("preloads_opt") else ""))
             for sub, label in ((None, "first read"), ("after", "read again after the solve"),
                                ("solve_first", "fresh inversion, read after the solve")):
                 if sub is not None and case.get("_light"):
@@ -1902,7 +2672,10 @@ class C04(PropertyCheck):
                     scale = float(np.abs(A).sum(axis=1).max() * max(1.0, np.abs(s).max()) + np.abs(Dx).max())
                     if float(np.abs(resid).max()) > 1e-7 * scale:
                         return False, f"{key} ({label}): reconstruction does not solve (F+H)s = D (residual {float(np.abs(resid).max()):.3e})"
-                    d = close(_arr(rd["mapped_reconstructed_data"]), B @ s, f"{key} ({label}): mapped_reconstructed_data != B s")
+                    # (B s is a sum with cancellation: its rounding error scales with sum_j |B_dj| |s_j|, which matters
+                    #  only when a nearly singular system produced a huge solution)
+                    d = close(_arr(rd["mapped_reconstructed_data"]), B @ s, f"{key} ({label}): mapped_reconstructed_data != B s",
+                              floor=1e-12 * float((np.abs(B) @ np.abs(s)).max()) if s.size and B.size else 0.0)
                     if d:
                         return False, d
                     if sub is None:
@@ -1932,10 +2705,18 @@ class C04(PropertyCheck):
         if case.get("kind") == "history":
             # fewer steps (keeping an observation at the end), then fewer options on the remaining ones
             steps = case["steps"]
+            # (ownership / configuration histories look for PROCESS-WIDE state: inside the failing process a shorter
+            #  history fails too, because the state is already there, but it would not reproduce in a fresh process —
+            #  their steps are kept; only the steps AFTER the last observation may go)
+            keep_all = case.get("hist_type") in ("ownership", "config")
             for i in range(len(steps) - 1):
                 rest = steps[:i] + steps[i + 1:]
+                if keep_all:
+                    continue
                 if any(st["op"] == "observe" for st in rest):
                     yield {**case, "steps": rest}
+            if keep_all and len(steps) > 2:
+                yield {**case, "steps": steps[:-1]}
             for i, st in enumerate(steps):
                 for opt in ("decoys", "ds_decoys", "fault"):
                     if st.get(opt):
@@ -1957,6 +2738,15 @@ class C04(PropertyCheck):
             if not isinstance(case.get("sub"), int) and case["dim"] != "sub_pixels":
                 yield {**case, "sub": 1}
             return
+        # round 5/6 options first: a failure that does not need them is reported without them
+        for opt in ("layouts", "store", "positional", "settings_extra", "preloads_opt", "default_settings"):
+            if case.get(opt):
+                yield {k: v for k, v in case.items() if k != opt}
+        if case.get("scale") and any(case["scale"].values()):
+            yield {**case, "scale": None}
+            for ing in ("data", "noise", "kernel"):
+                if case["scale"].get(ing):
+                    yield {**case, "scale": {**case["scale"], ing: 0}}
         # fewer objects
         if len(case["objs"]) > 1:
             for i in range(len(case["objs"])):
